@@ -260,6 +260,8 @@ class C04(Prop):
             res.digest = sim.digest()
             return res
         sig = []
+        states = set()
+        has_rules = any(q.get("rule") or q.get("head") for q in plan["pool"]["queries"])
         snap0 = run.world.snapshot()
         dups = plan.get("_control") or any(len(set(d)) != len(d) for d in plan["world"]["domains"].values())
         residue = False        # an abandoned/faulted evaluation that had produced >= 1 row or fired a fault
@@ -361,7 +363,17 @@ class C04(Prop):
                             sig.append(("probe_the", "not-judged"))
                         else:
                             ref = run.the_eval(op[1], pool=tw, quiet=True)
-                            if ref[0] == "exc" and ref[1] not in ("MultipleSolutionFound", "NoSolutionFound"):
+                            an_id = "q" + op[1][1:]
+                            dup_rows = False
+                            if an_id in tw.queries:
+                                tw2 = run.twin()
+                                ra = run.full(an_id, pool=tw2, quiet=True) if tw2 is not None else None
+                                dup_rows = ra is None or ra.end != "done" or len(ra.rows) != len(ra.rowset())
+                            if dup_rows:
+                                # what `the` should do when `an` delivers the same row twice is not stated (C06)
+                                sim.count("probe:the_not_judged_duplicate_rows")
+                                sig.append(("probe_the", "dup-rows"))
+                            elif ref[0] == "exc" and ref[1] not in ("MultipleSolutionFound", "NoSolutionFound"):
                                 sim.count("probe:skipped_twin_raises")
                                 sig.append(("probe_the", "twin-raises", ref[1]))
                             else:
@@ -380,6 +392,8 @@ class C04(Prop):
                                 if s.it is not None and s.state == "open" and var_of[s.qid] & var_of[qid]]
                         live += [1] * len(run.parked)
                         aged = run.full(qid)
+                        if has_rules:
+                            run.forget_inferred_instances()
                         tw = run.twin()
                         if live:
                             # another evaluation over the same nodes is suspended right now: what two concurrently
@@ -416,8 +430,13 @@ class C04(Prop):
                                 sig.append(("probe", aged.end, len(aged.rows) > 0))
                             if aged.end == "done":
                                 completed.add(qid)
+                if has_rules:
+                    run.forget_inferred_instances()
                 if run.world.snapshot() != snap0:
                     sim.violate("user-data-modified", {"after_op": op})
+                states.add((kind, tuple(sorted(s.state for s in run.slots.values() if s.it is not None)),
+                            len(run.parked), len(held), residue, len(completed),
+                            _cache_state(run.pool)))
                 sim.end_op()
                 if sim.violations:
                     break
@@ -432,11 +451,31 @@ class C04(Prop):
         res.signature = tuple(sig)
         res.nontrivial = judged and (residue or plan.get("campaign") == "faultfree" and len(completed) > 0)
         res.steps = sim.seq
+        res.states = tuple(states)
         return res
 
     # ------------------------------------------------------------------ shrinking
     def shrink_candidates(self, plan):
         yield from shrink_query_plan(plan)
+
+
+def _cache_state(pool):
+    """Coverage measure only (never an oracle): bucketed sizes / flags of the operator caches of every query."""
+    out = []
+    for qid, q in sorted(pool.queries.items()):
+        n_entries = n_all = n_nodes = 0
+        try:
+            for node in q._all_nodes_:
+                for attr in ("_cache_", "right_cache", "left_cache"):
+                    c = getattr(node, attr, None)
+                    if c is not None and hasattr(c, "seen_set"):
+                        n_nodes += 1
+                        n_entries += len(c.seen_set.seen)
+                        n_all += bool(c.seen_set.all_seen)
+        except Exception:
+            pass
+        out.append((qid, min(n_entries, 6) if n_entries < 6 else (8 if n_entries < 20 else 32), n_all))
+    return tuple(out)
 
 
 def _vars_of(q):
